@@ -97,7 +97,10 @@ class FortranRegularExpressions:
         r"CONTIGUOUS)",
         I,
     )
-    PARAMETER_VAL: Pattern = compile(r"\w*[\s\&]*=(([\s\&]*[\w\.\-\+\*\/\'\"])*)", I)
+    # A value is made of words, operators and whole character literals
+    PARAMETER_VAL: Pattern = compile(
+        r"\w*[\s\&]*=(([\s\&]*(?:\'[^\']*\'|\"[^\"]*\"|[\w\.\-\+\*\/\'\"]))*)", I
+    )
     TATTR_LIST: Pattern = compile(
         r"[ ]*,[ ]*(PUBLIC|PRIVATE|ABSTRACT|EXTENDS\(\w*\))", I
     )
